@@ -52,6 +52,27 @@ theorem C03_empty_request (o : Oracle α) (ts : Table α) : ∃ e, plan o ts [] 
   | error e => exact ⟨e, rfl⟩
   | spin => exact absurd hp (plan_ne_spin o ts [])
 
+/-- **C03 does not depend on Go's map iteration order.**  If planning succeeds under one iteration order (`o₁`) it succeeds under
+    every other (`o₂`), and the two run orders contain the same tasks, each once: they are permutations of one another (both
+    dependency-respecting by `C03_ok`).  So which tasks run, and that they run, is never a matter of luck. -/
+theorem C03_oracle_independent (o₁ o₂ : Oracle α) (ts : Table α) (req order₁ : List α) (h : plan o₁ ts req = .ok order₁) :
+    ∃ order₂, plan o₂ ts req = .ok order₂ ∧ order₁.Perm order₂ := by
+  cases hp : plan o₂ ts req with
+  | ok order₂ =>
+    refine ⟨order₂, rfl, ?_⟩
+    obtain ⟨n1, m1, _⟩ := C03_ok o₁ ts req order₁ h
+    obtain ⟨n2, m2, _⟩ := C03_ok o₂ ts req order₂ hp
+    exact (List.perm_ext_iff_of_nodup n1 n2).2 (fun a => (m1 a).trans (m2 a).symm)
+  | error e =>
+    have hne : req ≠ [] := by
+      rintro rfl
+      obtain ⟨e', he'⟩ := C03_empty_request o₁ ts
+      rw [h] at he'; cases he'
+    have herr := (C03_err o₂ ts req hne).2 ⟨e, hp⟩
+    obtain ⟨e', he'⟩ := (C03_err o₁ ts req hne).1 herr
+    rw [h] at he'; cases he'
+  | spin => exact absurd hp (plan_ne_spin o₂ ts req)
+
 /-- which error: the class reported tells the cause, and "could not add edge" (`Err.other`) is never reported -/
 theorem C03_error_class (o : Oracle α) (ts : Table α) (req : List α) (e : Err) (h : plan o ts req = .error e) :
     (e = .duplicate ↔ ¬ (names ts).Nodup) ∧
@@ -219,6 +240,10 @@ example : c03 twoCycle [0] (fun _ => false) ⟨none, [1, 0]⟩ = false := by unf
 -- stopping after a failure keeps the order; starting c without b does not
 example : c03 chain3 [2] (fun n => n == 0) ⟨none, [0]⟩ = true := by unfold chain3; graph_eval
 example : c03 chain3 [2] (fun n => n == 0) ⟨none, [0, 2]⟩ = false := by unfold chain3; graph_eval
+
+/-- `C03_oracle_independent` on the diamond: from the plain order, the backwards oracle's order exists and is a permutation -/
+example : ∃ order₂, plan backwards diamond [3] = .ok order₂ ∧ [0, 1, 2, 3].Perm order₂ :=
+  C03_oracle_independent noHints backwards diamond [3] _ diamond_plain
 
 end examples
 
